@@ -109,6 +109,7 @@ class World:
         kw.pop("package", None)
         kw.pop("name", None)
         kw.pop("future", None)
+        kw.pop("epoch", None)
         kw.pop("symlink", None)
         chain = kw.pop("chain", False)
         self.chained = bool(chain)
@@ -271,7 +272,9 @@ def validator_headers(form, v):
 VARIANTS = [(0.0, None, None), (0.6, None, None), (0.0, "America/New_York", None), (0.25, "Asia/Shanghai", None),
             (0.0, None, {"package": True}), (0.0, None, {"name": "app.3f2a9c1bdeadbeef.html"}), (0.0, None, {"name": "lib-0123456789abcdef0123456789abcdef.min.html"}), (0.0, None, {"future": True}), (0.0, None, {"cacheability": "no-cache"}), (0.0, None, {"cacheability": "private", "max_age": 0}), (0.0, None, {"cacheability": "no-store", "max_age": 1}),
             # an overlay directory in front (the file lives in the fallback app); names whose media type cannot be guessed
-            (0.0, None, {"chain": True}), (0.0, None, {"name": "LICENSE"}), (0.6, None, {"name": "data.bin"}), (0.0, None, {"symlink": True})]
+            (0.0, None, {"chain": True}), (0.0, None, {"name": "LICENSE"}), (0.6, None, {"name": "data.bin"}), (0.0, None, {"symlink": True}),
+            # a tree whose times start at the epoch (a reproducible archive, an image built without timestamps): modification time 0
+            (0.0, None, {"epoch": True})]
 
 
 def run_history(hist, r, collect_only=False, variant=0):
@@ -280,6 +283,8 @@ def run_history(hist, r, collect_only=False, variant=0):
     if settings and settings.get("future"):
         import time as _t
         frac = int(_t.time()) + 3600 - T0  # the file's times lie an hour ahead of the wall clock (a copied tree, a skewed clock)
+    if settings and settings.get("epoch"):
+        frac = -T0
     w = World(t0=T0 + frac, tz=tz, settings=settings)
     problems = []
     try:
